@@ -94,11 +94,7 @@ def smul (r : Rat) (p : Pt) : Pt := (r * p.1, r * p.2)
 /-- `p + q` on points. -/
 def vadd (p q : Pt) : Pt := (p.1 + q.1, p.2 + q.2)
 
-/-- `np.isclose(p, q).all()` on two points. -/
-def allClose (p q : Pt) : Bool := ptClose p q
-
-/-- `int(str(a) + str(b))`. -/
-def concatId (a b : Nat) : Nat := CR.Arc.concatId a b
+/- `np.isclose(p, q).all()` on two points is `CR.Arc.ptClose` and `int(str(a) + str(b))` is `CR.Arc.concatId` (CRModel/ArcLen.lean). -/
 
 /-- `Lanelet(left, center, right, id, predecessor=p, successor=s)`: the constructor runs the three vertex setters, each
     asserting `is_valid_polyline` (lanelet.py:108-110, 330-380). -/
